@@ -38,6 +38,36 @@ PROP_OF = {'site': 'Site', 'image_ref': 'ImageRef', 'image_type': 'ImageRef', 'm
            'controller_url': 'ControllerURL', 'ero': 'ERO'}
 
 
+PINNED_NODE_TABLE = {
+    'Server': (['site'], []), 'VM': (['site'], []), 'Container': (['site'], []),
+    'Switch': ([], ['attached_components_info', 'image_type', 'image_ref']),
+    'NAS': ([], ['attached_components_info', 'image_type', 'image_ref']),
+    'Facility': ([], ['attached_components_info', 'image_type', 'image_ref', 'management_ip']),
+}
+
+
+def check_tables(w, when):
+    """the library's constraint tables still equal the copies pinned here (a silent edit - or erosion at run time - shows)"""
+    from fim.slivers.network_node import NodeSliver
+    from fim.slivers.network_service import NetworkServiceSliver
+    got_n = {str(k): (list(v.required_properties), list(v.forbidden_properties)) for k, v in NodeSliver.NodeConstraints.items()}
+    want_n = {k: (list(a), list(b)) for k, (a, b) in PINNED_NODE_TABLE.items()}
+    if canon(got_n) != canon(want_n):
+        bad = [k for k in sorted(set(got_n) | set(want_n)) if canon(got_n.get(k)) != canon(want_n.get(k))]
+        w.flag('C10', 'constraint_table', {'table': 'node', 'when': when, 'type': bad[0]},
+               'node constraint table differs from the pinned copy for %s: library %s, pinned %s' %
+               (bad, [got_n.get(k) for k in bad], [want_n.get(k) for k in bad]))
+    got_s = {}
+    for k, v in NetworkServiceSliver.ServiceConstraints.items():
+        got_s[str(k)] = (v.min_interfaces, v.num_interfaces, v.num_sites, v.num_instances, list(v.required_properties),
+                         list(v.forbidden_properties), [str(t) for t in v.required_interface_types])
+    want_s = {k: tuple(v) for k, v in SERVICE_CONSTRAINTS.items()}
+    if canon(got_s) != canon({k: list(v) for k, v in want_s.items()}):
+        bad = [k for k in sorted(set(got_s) | set(want_s)) if canon(got_s.get(k)) != canon(list(want_s[k]) if k in want_s else None)]
+        w.flag('C10', 'constraint_table', {'table': 'service', 'when': when, 'type': bad[0]},
+               'service constraint table differs from the pinned copy for %s: library %s' % (bad, [got_s.get(k) for k in bad]))
+
+
 def truthy(props, name):
     v = props.get(PROP_OF[name])
     return v is not None and v != '' and v != 'None'
@@ -157,11 +187,15 @@ def x_validate(w, s, st, info):
     if len(set(names)) != len(names) or len(set(nn)) != len(nn):
         raise SkipStep()
     accept, reason, record = validate_expected(st, w.cfg['flavour'])
+    check_tables(w, 'before')
+    if w.pending:
+        return
     try:
         w.topo.validate()
         got, exc = True, None
     except Exception as e:
         got, exc = False, e
+    check_tables(w, 'after')
     post = graph_state(w.imp, w.gid())
     pst = Struct(post)
     types = sorted(set(st.typ(x) for x in st.of_class('NetworkService')))
